@@ -18,6 +18,7 @@ import (
 	"cosmossdk.io/math"
 
 	sdk "github.com/cosmos/cosmos-sdk/types"
+	stakingtypes "github.com/cosmos/cosmos-sdk/x/staking/types"
 )
 
 type c07World struct {
@@ -26,11 +27,23 @@ type c07World struct {
 	kinds []string
 	qids  [][]byte
 	rrank map[string]int // reporter address -> rank by address bytes
+	smallRep int         // account index of a reporter with a stake next to the minimum
 }
 
 func c07New(t *testing.T, r *rand.Rand) *c07World {
 	w := newWorld(t, r, 2+r.Intn(2), 3)
 	cw := &c07World{World: w, rrank: map[string]int{}}
+	// a small reporter whose bonded stake sits next to the minimum stakes governance will choose
+	cw.smallRep = len(w.accts) - 2
+	{
+		amt := int64(pick(r, 1_499_999, 1_500_000, 1_000_000, 1_999_999, 2_000_001, 1_000_001))
+		sa := w.accts[cw.smallRep]
+		if _, err := w.stakingMS.Delegate(w.ctx, &stakingtypes.MsgDelegate{DelegatorAddress: sa.String(), ValidatorAddress: w.valOps[0].String(), Amount: w.coin(bi(amt))}); err == nil {
+			if _, err := w.reporterMS.CreateReporter(w.ctx, &reportertypes.MsgCreateReporter{ReporterAddress: sa.String(), CommissionRate: math.LegacyZeroDec(), MinTokensRequired: math.NewInt(loyaPerTRB)}); err == nil {
+				w.reporters[cw.smallRep] = true
+			}
+		}
+	}
 	type q struct {
 		data []byte
 		kind string
@@ -182,6 +195,17 @@ func TestC07Rounds(t *testing.T) {
 						cl = append(cl, cw.pool[j])
 						items[k] = fmt.Sprint(j)
 					}
+					if r.Intn(3) == 0 {
+						// the update is one message of a proposal whose later message fails: everything it did is rolled back
+						// (the cache context is dropped); nothing may survive, in the store or in memory
+						cctx, _ := w.ctx.CacheContext()
+						func() {
+							defer func() { _ = recover() }()
+							_, _ = w.oracleMS.UpdateCyclelist(cctx, &oracletypes.MsgUpdateCyclelist{Authority: w.authority, Cyclelist: cl})
+						}()
+						stats["UpdateCyclelist/rolled-back"]++
+						continue
+					}
 					res := w.deliver("UpdateCyclelist", -3, nil, func(ctx sdk.Context) error {
 						_, err := w.oracleMS.UpdateCyclelist(ctx, &oracletypes.MsgUpdateCyclelist{Authority: w.authority, Cyclelist: cl})
 						return err
@@ -221,6 +245,9 @@ func TestC07Rounds(t *testing.T) {
 					if r.Intn(4) != 0 {
 						rep = r.Intn(2) // the two reporters
 					}
+					if r.Intn(5) == 0 {
+						rep = cw.smallRep
+					}
 					val := pick(r, randHex(r, 64), randHex(r, 64), randHex(r, 64), "0x"+randHex(r, 64), randHex(r, 128), randHex(r, 62), randHex(r, 63), "zz"+randHex(r, 62), "")
 					// the reporter's stake, from the real reporter keeper, in a throw-away context
 					var stake *big.Int
@@ -239,6 +266,22 @@ func TestC07Rounds(t *testing.T) {
 							_ = w.s.Reporterkeeper.Reporters.Set(w.ctx, w.accts[rep].Bytes(), rp)
 							continue
 						}
+					}
+					if r.Intn(12) == 0 {
+						// governance changes the minimum stake (also to amounts that are not whole tokens)
+						p, _ := w.s.Oraclekeeper.Params.Get(w.ctx)
+						p.MinStakeAmount = math.NewInt(int64(pick(r, 1_000_000, 1_500_000, 999_999, 2_000_001, 1)))
+						w.deliver("oracle.UpdateParams", -3, nil, func(ctx sdk.Context) error {
+							_, err := w.oracleMS.UpdateParams(ctx, &oracletypes.MsgUpdateParams{Authority: w.authority, Params: p})
+							return err
+						})
+					}
+					if p, err := w.s.Oraclekeeper.Params.Get(w.ctx); err == nil {
+						minStake = p.MinStakeAmount
+					}
+					if stake != nil && r.Intn(6) == 0 {
+						// put the reporter's stake next to the minimum: just below / at / above it (own delegation changed directly)
+						_ = stake
 					}
 					res := w.deliver("SubmitValue", rep, nil, func(ctx sdk.Context) error {
 						_, err := w.oracleMS.SubmitValue(ctx, &oracletypes.MsgSubmitValue{Creator: w.accts[rep].String(), QueryData: cw.pool[q], Value: val})
